@@ -326,7 +326,7 @@ fn count_fired(plan: &crate::run::Plan, res: &RunResult, fired: &mut BTreeMap<&'
         let oi = cursor[wi];
         cursor[wi] += 1;
         if started.insert(wi) && wi != 0 {
-            if sc.worlds[wi].env.iter().any(|(k, _)| !k.starts_with("VERIF_SLIDE_")) {
+            if sc.worlds[wi].env.iter().any(|(k, _)| k == "VERIF_ENV_SEED") {
                 bump("env_noise");
             }
             if sc.worlds[wi].env.iter().any(|(k, _)| k == "VERIF_SLIDE_MMAP") {
@@ -350,6 +350,7 @@ fn count_fired(plan: &crate::run::Plan, res: &RunResult, fired: &mut BTreeMap<&'
             },
             Op::Pid { .. } => bump("pid_change"),
             Op::Frag { .. } => bump("heap_fragment"),
+            Op::FsWipe => bump("fs_wipe"),
             Op::Expand { w, input } => {
                 if let Some(e) = ev.peek() {
                     if e.world == wi && e.op == oi {
@@ -407,6 +408,10 @@ pub fn shard_main(a: &Args) -> i32 {
     let mut gr_worker = 0u64;
     let mut clock_reads = 0u64;
     let mut pid_reads = 0u64;
+    let mut env_reads = 0u64;
+    let mut cwd_reads = 0u64;
+    let mut fs_calls = 0u64;
+    let mut ncpu_reads = 0u64;
     let mut violations: Vec<J> = vec![];
     let mut harness_errors: Vec<J> = vec![];
     let mut samples: Vec<J> = vec![];
@@ -443,6 +448,10 @@ pub fn shard_main(a: &Args) -> i32 {
             gr_worker += s.getrandom_worker;
             clock_reads += s.clock_reads_worker;
             pid_reads += s.pid_reads_worker;
+            env_reads += s.env_reads_worker;
+            cwd_reads += s.cwd_reads_worker;
+            fs_calls += s.fs_calls_worker;
+            ncpu_reads += s.ncpu_reads_worker;
         }
         // simulated time covered: sum of |clock jumps|
         for w in &plan.scenario.worlds {
@@ -568,6 +577,10 @@ pub fn shard_main(a: &Args) -> i32 {
         .set("getrandom_worker", J::i(gr_worker))
         .set("clock_reads_worker", J::i(clock_reads))
         .set("pid_reads_worker", J::i(pid_reads))
+        .set("env_reads_worker", J::i(env_reads))
+        .set("cwd_reads_worker", J::i(cwd_reads))
+        .set("fs_calls_worker", J::i(fs_calls))
+        .set("ncpu_reads_worker", J::i(ncpu_reads))
         .set("fired", J::Obj(fired.iter().map(|(k, v)| (k.to_string(), J::i(*v))).collect()))
         .set("outcome_classes", J::Obj(classes.iter().map(|(k, v)| (k.to_string(), J::i(*v))).collect()))
         .set("roles", J::Obj(role_counts.iter().map(|(k, v)| (k.to_string(), J::i(*v))).collect()))
@@ -729,6 +742,10 @@ pub fn batch(a: &Args, tier: &str, runs: u64, shards: u64, out_dir: &Path) -> Re
         .set("simulated_clock_time_covered_s", J::Int(sum(&results, "sim_clock_span_s")))
         .set("clock_reads_during_expansion", J::Int(sum(&results, "clock_reads_worker")))
         .set("pid_reads_during_expansion", J::Int(sum(&results, "pid_reads_worker")))
+        .set("env_reads_during_expansion", J::Int(sum(&results, "env_reads_worker")))
+        .set("cwd_reads_during_expansion", J::Int(sum(&results, "cwd_reads_worker")))
+        .set("file_opens_during_expansion", J::Int(sum(&results, "fs_calls_worker")))
+        .set("cpu_count_reads_during_expansion", J::Int(sum(&results, "ncpu_reads_worker")))
         .set("entropy_draws_by_workers", J::Int(sum(&results, "getrandom_worker")))
         .set("perturbations_fired", fired_j)
         .set("fault_kinds_not_applicable", not_injected)
